@@ -50,6 +50,7 @@ type Script struct {
 	RawReset     bool        `json:"raw_reset,omitempty"` // close with RST after Raw
 	Gzip         bool        `json:"gzip,omitempty"`     // body bytes are a gzip stream of the generated body
 	HangFirst    bool        `json:"hang_first,omitempty"` // never send a header block (wait until the peer gives up)
+	HoldFirstMs  int         `json:"hold_first_ms,omitempty"` // wait this long before sending the header block
 	Implicit     bool        `json:"implicit,omitempty"`   // do not call WriteHeader: the first Write / the end of the handler commits the status (200)
 }
 
@@ -358,6 +359,13 @@ func (b *Backend) serve(w http.ResponseWriter, r *http.Request) {
 	b.arrivals = append(b.arrivals, a)
 	b.mu.Unlock()
 
+	if sc.HoldFirstMs > 0 {
+		select {
+		case <-time.After(time.Duration(sc.HoldFirstMs) * time.Millisecond):
+		case <-r.Context().Done():
+			return
+		}
+	}
 	if sc.HangFirst {
 		select {
 		case <-time.After(time.Hour):
